@@ -394,6 +394,10 @@ class CFG:
         if hidx:
             for h in hidx:
                 self._edge(t.idx, h, "exc")
+        if fin_exc_entry is not None and not (hidx and catch_all):
+            # an exception anywhere in the body that no handler of this try catches runs the finally body on its way out:
+            # the exceptional copy of the finally body is entered "from the try" (any prefix of the body may have run)
+            self._edge(t.idx, fin_exc_entry.idx, "exc")
         body_out = self._seq(st.body, [(t.idx, "")], bctx)
         # handlers and else run outside the protection of this try's handlers
         hctx = _Ctx(body_raise_to, body_outer_handlers, ctx.loop_head, ctx.breaks,
